@@ -873,7 +873,7 @@ func c18Selection(c *core.Ctx, rf *ssa.Function) {
 		dnf, restore, ok := core.ReachDNF(body, sl.at, inLoop)
 		bad := ""
 		if !ok || len(dnf) == 0 {
-			bad = "cannot enumerate the path conditions of the adoption"
+			bad = fmt.Sprintf("cannot enumerate the path conditions of the adoption (from block %d to block %d: %d conjunctions, ok=%v)", body.Index, sl.at.Index, len(dnf), ok)
 		}
 		kinds := map[string]bool{}
 		for _, conj := range dnf {
@@ -892,6 +892,9 @@ func c18Selection(c *core.Ctx, rf *ssa.Function) {
 				case isV(l.Y, candHop) && isV(l.X, sl.hop):
 					relH &= core.SwapRel(l.Rel())
 				}
+			}
+			if relC == 0 || relH == 0 {
+				continue // contradictory path condition: no execution takes this path
 			}
 			switch {
 			case relC == core.RelLT:
